@@ -277,6 +277,11 @@ func LiveMPD(a *asset, mpdName string, cfg *ResponseConfig, drmCfg *drm.DrmConfi
 			if err != nil {
 				return nil, fmt.Errorf("adjustASForTimelineNr: %w", err)
 			}
+			if as.SegmentTemplate.StartNumber != nil {
+				// se.startNr counts segments from availabilityStartTime, where the
+				// first segment has the configured start number (as in findSegMetaFromNr)
+				*as.SegmentTemplate.StartNumber += uint32(cfg.getStartNr())
+			}
 			if asIdx == 0 {
 				mpd.PublishTime = m.ConvertToDateTime(calcPublishTime(cfg, se.lsi))
 			}
